@@ -326,6 +326,9 @@ Step ==
                       [] ev.e = "GetTab"    -> Apply(ev, DoGetTab(s0, ev), sid)
                       [] ev.e = "Release"   -> Apply(ev, DoRelease(s0, ev), sid)
                       [] ev.e = "Build"     -> Apply(ev, DoBuild(s0, ev), sid)
+                      [] ev.e = "Expect"    -> Apply(ev, [ s |-> s0, fails |->
+                                                   F(Avail(s0) = ToSet(ev.avail) /\ (Complete(s0) <=> ev.complete = 1),
+                                                     "INFRA", "model-behaviour-disagrees-with-api-spec") ], sid)
                       [] OTHER              -> UNCHANGED <<ses, skip, nviol, xs>>
 
 Next == Step
